@@ -283,9 +283,9 @@ pub fn c17(a: &Args) {
         for (k, i) in idx.iter().enumerate() {
             let c = &font_cases[*i];
             let (carrier, h, n) = (c["c"].as_str().unwrap_or("psf2"), c["h"].as_i64().unwrap_or(16), c["n"].as_i64().unwrap_or(256));
-            // quick tier: boundary heights always, the rest sampled by seed (about one case in four)
+            // quick tier: boundary heights always, the rest sampled by seed (every second case)
             let boundary = h == 1 || h == 32 || h == 16;
-            if !thorough && !boundary && (k as u64 + seed) % 4 != 0 { continue; }
+            if !thorough && !boundary && (k as u64 + seed) % 2 != 0 { continue; }
             let f = random_font(&mut r, &format!("font {h}"), h as u8, n as usize);
             let o = random_font(&mut r, "second", h as u8, 256);
             let slot = if carrier == "icy" || carrier == "dcs" { [0usize, 1, 42, 255, 256, 300][r.gen_range(0..6)] } else { 0 };
@@ -341,7 +341,7 @@ pub fn c17(a: &Args) {
             let (t, w, h, nl, bundle) = (gv("type"), gv("w") as usize, gv("h") as usize, gv("name") as usize, gv("bundle") as usize);
             let def = c["def"].as_str().unwrap_or("none");
             let heavy = def == "all" && w == 30 && h == 12;
-            let take = if thorough { !heavy || nl % 4 == 0 } else if heavy { (k as u64 + seed) % 39 == 0 } else { (k as u64 + seed) % 13 == 0 };
+            let take = if thorough { !heavy || nl % 4 == 0 } else if heavy { (k as u64 + seed) % 13 == 0 } else { (k as u64 + seed) % 6 == 0 };
             if !take { continue; }
             let mut r = rng(seed, 40_000 + k as u64);
             let mut glyphs = vec![None; 94];
